@@ -13,7 +13,7 @@ import (
 
 // C04 - RPC errors keep their code, message and details across protocols.
 
-const ruleC04 = "rapid draws error specs (code 1-16 and out-of-range / non-numeric status texts; message from all of UTF-8 incl. %, CR/LF, quotes, NUL, astral planes; 0..3 details with resolvable and unresolvable types; trailers-only or after k messages; bare HTTP statuses 400-599 with arbitrary bodies) x 6 client forms x all target configs. Oracle: client-parsed (code, message, detail types and values) equals the script's; HTTP status equals the independently written code table; bare HTTP failures map by the published HTTP->RPC table; out-of-range codes are relayed or mapped to unknown/internal. Non-trivial = the error crossed a protocol/codec boundary; distinct by hash(code, message, #details, position, client and backend triple)."
+const ruleC04 = "rapid draws error specs (code 1-16, out-of-range / non-numeric status texts and errors that carry no code at all; message from all of UTF-8 incl. %, CR/LF, quotes, NUL, astral planes; 0..3 details with resolvable and unresolvable types; trailers-only or after k messages; bare HTTP statuses 400-599 with arbitrary bodies) x 6 client forms x all target configs. Oracle: client-parsed (code, message, detail types and values) equals the script's; HTTP status equals the independently written code table; bare HTTP failures map by the published HTTP->RPC table; out-of-range codes are relayed or mapped to unknown/internal. Non-trivial = the error crossed a protocol/codec boundary; distinct by hash(code, message, #details, position, client and backend triple)."
 
 func init() { registerScenarioProp("C04", ruleC04, checkC04) }
 
